@@ -136,6 +136,8 @@ def run(chk, replay):
         if os.path.isdir(cdir):
             for f in sorted(os.listdir(cdir)):
                 c = json.load(open(os.path.join(cdir, f))); c["id"] = "corpus-" + f[:-5]; cases.append(c)
+        for k in range(12 if chk.tier == "quick" else 60):
+            cases.append(hist.gen_race_case(rng, k, 250))
         n = 150 if chk.tier == "quick" else 1500
         for k in range(n):
             cases.append(hist.gen_case(rng, k, rng.randint(8, 40), plain_names=rng.random() < 0.25))
@@ -177,6 +179,8 @@ def run(chk, replay):
                 stat["op_errors"][a["err"]] = stat["op_errors"].get(a["err"], 0) + 1
             spec.apply(o)
             chk.evaluations += 1
+            if a.get("skip"):
+                continue            # no query after this operation (the next one follows at once)
             for sig, detail in spec.check(a, i):
                 chk.violation("C06:%s:%s" % (sig, input_class(c, i)), "%s (after op %d %s)" % (detail, i, json.dumps(o)),
                               {"case": c, "op_index": i, "answer": a})
